@@ -413,13 +413,19 @@ func resultSet(g *pk.Gen, wide bool, ncols, nrows int) []Item {
 func Response(g *pk.Gen) []Item {
 	var items []Item
 	special := func() {
-		switch g.Rng.Intn(6) {
+		switch g.Rng.Intn(7) {
 		case 0:
 			items = append(items, eedItem(g, false))
 		case 1:
 			items = append(items, eedItem(g, true))
 		case 2:
 			items = append(items, envItem(g, g.Rng.Intn(4)))
+		case 3:
+			// a package of any other kind (harvested valid encodings: LOGINACK, CAPABILITY, MSG, RETURNSTATUS, DYNAMIC,
+			// cursor packages, LANGUAGE, ...)
+			if len(Samples) > 0 && !rxMutated {
+				items = append(items, Samples[g.Rng.Intn(len(Samples))])
+			}
 		}
 	}
 	special()
